@@ -384,6 +384,14 @@ func (v *cdecodeView) Exec(line string) (string, string, []string) {
 			if res.Consumed != n {
 				fail("C08: consumed %d bytes of a %d-byte request", res.Consumed, n)
 			}
+			if len(data) > n {
+				// the same request with nothing buffered behind it must be framed and classified the same way
+				alone := core.VerifDecode(limit, append([]byte{}, data[:n]...))
+				if alone.Err != nil || alone.NilMsg || alone.Type != res.Type || alone.Consumed != res.Consumed {
+					fail("C08: a %d-byte request is classified type %d (consumed %d) with %d more bytes buffered behind it, but type %d (consumed %d, err %v) on its own", n, res.Type, res.Consumed, len(data)-n, alone.Type, alone.Consumed, alone.Err)
+				}
+				tags = append(tags, "pipelined")
+			}
 			want := supported && arityOK && sizeOK
 			if served != want {
 				fail("C17: request %q served=%v but supported=%v arity-ok=%v size-ok=%v (size %d, limit %d, type %d)", name, served, supported, arityOK, sizeOK, n, limit, res.Type)
